@@ -76,7 +76,14 @@ pub struct Group {
 }
 
 pub const NAMES: [&str; 2] = ["a", "ab"]; // one name is a textual prefix of the other on purpose
-pub const SPELLINGS: [&str; 6] = ["abs", "rel", "rel-dot", "abs-dslash", "abs-dot", "rel-updown"];
+pub const SPELLINGS: [&str; 7] = ["abs", "rel", "rel-dot", "abs-dslash", "abs-dot", "rel-updown", "abs-var"];
+
+/// the variable spelling writes the last component of the target as ${RVMC_C10_<name>}
+fn set_spelling_env() {
+    for n in NAMES {
+        std::env::set_var(format!("RVMC_C10_{}", n), n);
+    }
+}
 const ZF: &str = "/zf";
 const ZD: &str = "/zd";
 const ZM: &str = "/zm";
@@ -168,10 +175,14 @@ pub fn spell(sp: usize, abs_l: &str, abs_t: &str) -> String {
         3 => format!("{}//{}", &abs_t[..cut], &abs_t[cut + 1..]),
         4 => format!("{}/./{}", &abs_t[..cut], &abs_t[cut + 1..]),
         5 => format!("x/../{}", rel),
+        // abs() expands variables before it cleans: the recorded target is the expanded one
+        6 if NAMES.contains(&&abs_t[cut + 1..]) => format!("{}/${{RVMC_C10_{}}}", &abs_t[..cut], &abs_t[cut + 1..]),
+        6 => abs_t.to_string(),
         _ => panic!("machinery: spelling index"),
     };
     // self check of the reference: every spelling denotes abs_t lexically
-    let denotes = if arg.starts_with('/') { go_clean(&arg) } else { go_clean(&format!("{}/{}", parent_of(abs_l), arg)) };
+    let expanded = NAMES.iter().fold(arg.clone(), |acc, n| acc.replace(&format!("${{RVMC_C10_{}}}", n), n));
+    let denotes = if expanded.starts_with('/') { go_clean(&expanded) } else { go_clean(&format!("{}/{}", parent_of(abs_l), expanded)) };
     assert_eq!(denotes, abs_t, "machinery: spelling {} of {} from {} is {:?}", sp, abs_t, abs_l, arg);
     arg
 }
@@ -926,7 +937,7 @@ pub fn run_group<W: World>(w: &mut W, g: &Group, spellings: &[usize], st: &mut S
     out
 }
 
-const ALL_SP: [usize; 6] = [0, 1, 2, 3, 4, 5];
+const ALL_SP: [usize; 7] = [0, 1, 2, 3, 4, 5, 6];
 
 /// "non-trivial" pair: the relative navigation from dir(L) to T needs a ".." or more than one
 /// component, i.e. the link is NOT next to its target (the only layout the test-suite uses)
@@ -942,6 +953,7 @@ pub fn worker(w: &mut WorkerCtx) {
     unsafe {
         libc::umask(0o022);
     }
+    set_spelling_env();
     let depth: usize = w.arg(0).parse().unwrap_or_else(|_| depth_for(w.tier));
     let sb = Sandbox::new("c10");
     let gs = groups(depth);
@@ -1029,6 +1041,7 @@ fn sample_case(g: &Group, sp: usize) -> J {
 
 pub fn run(ctx: &Ctx) -> i32 {
     quiet_panics();
+    set_spelling_env();
     if let Some(p) = &ctx.replay {
         return replay(ctx, p);
     }
@@ -1117,7 +1130,7 @@ pub fn run(ctx: &Ctx) -> i32 {
         ("evaluations", J::i(states)),
         ("distinct_nontrivial", J::i(nontriv.len() as i64)),
         ("rule", J::s(format!(
-            "positions = all {} paths of depth <= {} over names {{a,b}}; targets = positions + root; every feasible (L, T, kind at creation) configuration ({} configurations over {} (L,T) pairs) x 6 spellings of the target = {} states per world, 3 worlds (memfs@/, stdfs@sandbox, memfs@sandbox). Each state: symlink + all queries of the statement + readlink*/entry on every non-link; then up to 13 follow-up transitions each from a fresh copy of the state (remove, chmod x2, chown x2 without follow, the same chown x2 after the target itself was given the requested owner, move_p of the link and of each of its ancestor directories to a new name with the readlink/readlink_abs law checked where the link is found afterwards, symlink over the link x3). distinct_nontrivial = (L,T) pairs whose relative navigation from dir(L) to T contains '..' or more than one component or is empty (target == dir(link)), i.e. the link is not next to its target.",
+            "positions = all {} paths of depth <= {} over names {{a,b}}; targets = positions + root; every feasible (L, T, kind at creation) configuration ({} configurations over {} (L,T) pairs) x 7 spellings of the target (the last one writes the final component as a variable reference) = {} states per world, 3 worlds (memfs@/, stdfs@sandbox, memfs@sandbox). Each state: symlink + all queries of the statement + readlink*/entry on every non-link; then up to 13 follow-up transitions each from a fresh copy of the state (remove, chmod x2, chown x2 without follow, the same chown x2 after the target itself was given the requested owner, move_p of the link and of each of its ancestor directories to a new name with the readlink/readlink_abs law checked where the link is found afterwards, symlink over the link x3). distinct_nontrivial = (L,T) pairs whose relative navigation from dir(L) to T contains '..' or more than one component or is empty (target == dir(link)), i.e. the link is not next to its target.",
             tree::namespace(&NAMES, depth).len(), depth, n, pairs.len(), expect_states
         ))),
         ("per_world", J::obj([
